@@ -1,4 +1,286 @@
-import LdarModel.Model.Summary
+import LdarModel.Lemmas.Summary
+/-
+C14 — summary files aggregate each program-simulation's own outputs, once each.
+
+Model: `Model/Summary.lean` (`runAll` = the batch loop of `_run_simulations_debug` over
+`batch_simulations n`, each batch written and then summarised by `genAll` = `gen_summary_outputs`).
+The statements quantify over every content type and statistics (`Stats κ`), every world `W`
+(what each program-simulation writes), every simulation count `n`, both retention settings and
+every schedule `σ` of enumeration orders (one independent permutation per directory scan).
+-/
 namespace LdarModel.Summary
-theorem placeholder_c14 : True := trivial
+
+/-- the property at full strength: for *every* list of distinct program names, both summary tables
+are, up to row order, exactly one row per (program, simulation), each computed from that pair's own
+files -/
+def C14_statement : Prop :=
+  ∀ (κ : Type) (S : Stats κ) (W : Name → Nat → SimOut κ) (progs : List Name) (keepAll : Bool)
+    (σ : Sched κ) (n : Nat), progs.Nodup → σ.Valid →
+    ((runAll S W progs keepAll σ n).ts).Perm (canonTs S W progs (List.range n)) ∧
+    ((runAll S W progs keepAll σ n).emis).Perm (canonEmis S W progs (List.range n))
+
+/-- C14 for all program names that do not collide with the two reserved names (a leading `kept`,
+the folder name `Logs`): closed form of both tables after the whole batch loop, for every
+simulation count, both retention settings and every enumeration order of every scan; every program
+folder ends with kept files only -/
+theorem C14_partial {κ : Type} (S : Stats κ) (W : Name → Nat → SimOut κ) (progs : List Name) (keepAll : Bool)
+    (σ : Sched κ) (n : Nat) (hg : GoodProgs progs) (hσ : σ.Valid) :
+    ((runAll S W progs keepAll σ n).ts).Perm (canonTs S W progs (List.range n)) ∧
+    ((runAll S W progs keepAll σ n).emis).Perm (canonEmis S W progs (List.range n)) ∧
+    (∀ pd ∈ (runAll S W progs keepAll σ n).dirs, ∀ e ∈ pd.2, isKept e.name = true) := by
+  have h := runBatches_inv S W progs hg keepAll σ hσ (batchSimulations n) 0 _ [] (init_inv S W progs)
+  rw [List.nil_append, allSims_batchSimulations] at h
+  exact ⟨h.ts, h.emis, h.kept⟩
+
+/-- identity schedule: every scan returns the folder as stored -/
+def idSched (κ : Type) : Sched κ :=
+  { dirs := fun _ l => l, ts := fun _ _ l => l, emis := fun _ _ l => l, est := fun _ _ l => l,
+    rep := fun _ _ l => l }
+
+theorem idSched_valid (κ : Type) : (idSched κ).Valid :=
+  ⟨fun _ _ => List.Perm.refl _, fun _ _ _ => List.Perm.refl _, fun _ _ _ => List.Perm.refl _,
+   fun _ _ _ => List.Perm.refl _, fun _ _ _ => List.Perm.refl _⟩
+
+/-- a schedule that reverses some scans and not others -/
+def mixedSched (κ : Type) : Sched κ :=
+  { dirs := fun _ l => l.reverse, ts := fun _ _ l => l, emis := fun _ _ l => l.reverse,
+    est := fun b _ l => if b % 2 = 0 then l.reverse else l, rep := fun _ _ l => l }
+
+theorem mixedSched_valid (κ : Type) : (mixedSched κ).Valid := by
+  refine ⟨fun _ l => List.reverse_perm l, fun _ _ _ => List.Perm.refl _, fun _ _ l => List.reverse_perm l,
+    fun b _ l => ?_, fun _ _ _ => List.Perm.refl _⟩
+  simp only [mixedSched]
+  split
+  · exact List.reverse_perm l
+  · exact List.Perm.refl _
+
+private def unitStats : Stats Unit :=
+  { ts := fun _ => [], emis := fun _ => [], est := fun _ => [], rep := fun _ => [], nEmis := 0, nYears := 0 }
+
+private def unitWorld : Name → Nat → SimOut Unit := fun _ _ => { ts := (), emis := (), est := none, rep := none }
+
+/-- The full statement is false of the code as it stands (known finding C14-kept-prefix): a program
+whose name starts with the kept marker is never summarised.  Witness: the single program `keptA`,
+one simulation. -/
+theorem C14_counterexample : ¬ C14_statement := by
+  intro h
+  have h1 := (h Unit unitStats unitWorld ["keptA".toList] false (idSched Unit) 1 (by simp)
+    (idSched_valid Unit)).1
+  have h2 := h1.length_eq
+  revert h2
+  decide +kernel
+
+/-- every (program, simulation) pair appears exactly once in each summary table and nothing else
+does — for every simulation count, both retention settings, every enumeration order -/
+theorem once_each {κ : Type} (S : Stats κ) (W : Name → Nat → SimOut κ) (progs : List Name) (keepAll : Bool)
+    (σ : Sched κ) (n : Nat) (hg : GoodProgs progs) (hσ : σ.Valid) (hp : progs.Nodup) :
+    (∀ p ∈ progs, ∀ s, s < n →
+      (keys (runAll S W progs keepAll σ n).ts).count (key p s) = 1 ∧
+      (keys (runAll S W progs keepAll σ n).emis).count (key p s) = 1) ∧
+    (∀ k, (k ∈ keys (runAll S W progs keepAll σ n).ts ∨ k ∈ keys (runAll S W progs keepAll σ n).emis) →
+      ∃ p ∈ progs, ∃ s, s < n ∧ k = key p s) ∧
+    (keys (runAll S W progs keepAll σ n).ts).Nodup ∧ (keys (runAll S W progs keepAll σ n).emis).Nodup := by
+  obtain ⟨hts, hem, _⟩ := C14_partial S W progs keepAll σ n hg hσ
+  have nd := nodup_canonKeys progs (List.range n) hp List.nodup_range
+  have kts : (keys (runAll S W progs keepAll σ n).ts).Perm (canonKeys progs (List.range n)) := by
+    rw [← keys_canonTs S W]; exact List.Perm.map _ hts
+  have kem : (keys (runAll S W progs keepAll σ n).emis).Perm (canonKeys progs (List.range n)) := by
+    rw [← keys_canonEmis S W]; exact List.Perm.map _ hem
+  refine ⟨?_, ?_, (List.Perm.nodup_iff kts).mpr nd, (List.Perm.nodup_iff kem).mpr nd⟩
+  · intro p hpm s hs
+    have hmem : key p s ∈ canonKeys progs (List.range n) :=
+      (mem_canonKeys _ _ _).mpr ⟨s, List.mem_range.mpr hs, p, hpm, rfl⟩
+    rw [kts.count_eq, kem.count_eq]
+    exact ⟨List.count_eq_one_of_mem nd hmem, List.count_eq_one_of_mem nd hmem⟩
+  · intro k hk
+    have : k ∈ canonKeys progs (List.range n) := by
+      rcases hk with hk | hk
+      · exact kts.mem_iff.mp hk
+      · exact kem.mem_iff.mp hk
+    obtain ⟨s, hs, p, hpm, rfl⟩ := (mem_canonKeys _ _ _).mp this
+    exact ⟨p, hpm, s, List.mem_range.mp hs, rfl⟩
+
+/-- the row of (p, s) is the stated function of that pair's own files (and therefore of no other
+file: two worlds that agree on what (p, s) writes give the same row) -/
+theorem own_files_only {κ : Type} (S : Stats κ) (W W' : Name → Nat → SimOut κ) (progs : List Name)
+    (keepAll : Bool) (σ σ' : Sched κ) (n : Nat) (hg : GoodProgs progs) (hσ : σ.Valid) (hσ' : σ'.Valid)
+    (hp : progs.Nodup) (p : Name) (hpm : p ∈ progs) (s : Nat) (hs : s < n) :
+    List.lookup (key p s) (runAll S W progs keepAll σ n).ts = some (S.ts (W p s).ts) ∧
+    List.lookup (key p s) (runAll S W progs keepAll σ n).emis = some (S.emis (W p s).emis ++ estPart S (W p s)) ∧
+    (W p s = W' p s →
+      List.lookup (key p s) (runAll S W progs keepAll σ n).ts
+        = List.lookup (key p s) (runAll S W' progs keepAll σ' n).ts ∧
+      List.lookup (key p s) (runAll S W progs keepAll σ n).emis
+        = List.lookup (key p s) (runAll S W' progs keepAll σ' n).emis) := by
+  have key1 : ∀ (V : Name → Nat → SimOut κ) (τ : Sched κ), τ.Valid →
+      List.lookup (key p s) (runAll S V progs keepAll τ n).ts = some (S.ts (V p s).ts) ∧
+      List.lookup (key p s) (runAll S V progs keepAll τ n).emis = some (S.emis (V p s).emis ++ estPart S (V p s)) := by
+    intro V τ hτ
+    obtain ⟨hts, hem, _⟩ := C14_partial S V progs keepAll τ n hg hτ
+    have o := once_each S V progs keepAll τ n hg hτ hp
+    rw [lookup_perm hts o.2.2.1, lookup_perm hem o.2.2.2,
+      lookup_canonTs S V progs _ hp List.nodup_range p hpm s (List.mem_range.mpr hs),
+      lookup_canonEmis S V progs _ hp List.nodup_range p hpm s (List.mem_range.mpr hs)]
+    exact ⟨rfl, rfl⟩
+  refine ⟨(key1 W σ hσ).1, (key1 W σ hσ).2, fun hW => ?_⟩
+  rw [(key1 W σ hσ).1, (key1 W σ hσ).2, (key1 W' σ' hσ').1, (key1 W' σ' hσ').2, hW]
+  exact ⟨rfl, rfl⟩
+
+/-- the summary tables do not depend on the order in which the file system lists anything: two
+runs under different valid schedules give the same tables as keyed maps (and as multisets) -/
+theorem perm_invariant {κ : Type} (S : Stats κ) (W : Name → Nat → SimOut κ) (progs : List Name)
+    (keepAll : Bool) (σ σ' : Sched κ) (n : Nat) (hg : GoodProgs progs) (hσ : σ.Valid) (hσ' : σ'.Valid)
+    (hp : progs.Nodup) :
+    ((runAll S W progs keepAll σ n).ts).Perm (runAll S W progs keepAll σ' n).ts ∧
+    ((runAll S W progs keepAll σ n).emis).Perm (runAll S W progs keepAll σ' n).emis ∧
+    ∀ k, List.lookup k (runAll S W progs keepAll σ n).ts = List.lookup k (runAll S W progs keepAll σ' n).ts ∧
+         List.lookup k (runAll S W progs keepAll σ n).emis = List.lookup k (runAll S W progs keepAll σ' n).emis := by
+  obtain ⟨a1, a2, _⟩ := C14_partial S W progs keepAll σ n hg hσ
+  obtain ⟨b1, b2, _⟩ := C14_partial S W progs keepAll σ' n hg hσ'
+  have o := once_each S W progs keepAll σ n hg hσ hp
+  have p1 := a1.trans b1.symm
+  have p2 := a2.trans b2.symm
+  exact ⟨p1, p2, fun k => ⟨lookup_perm p1 o.2.2.1 k, lookup_perm p2 o.2.2.2 k⟩⟩
+
+/-- retention only decides which files stay in the folders, never a summary row -/
+theorem retention_invariant {κ : Type} (S : Stats κ) (W : Name → Nat → SimOut κ) (progs : List Name)
+    (σ : Sched κ) (n : Nat) (hg : GoodProgs progs) (hσ : σ.Valid) :
+    ((runAll S W progs true σ n).ts).Perm (runAll S W progs false σ n).ts ∧
+    ((runAll S W progs true σ n).emis).Perm (runAll S W progs false σ n).emis := by
+  obtain ⟨a1, a2, _⟩ := C14_partial S W progs true σ n hg hσ
+  obtain ⟨b1, b2, _⟩ := C14_partial S W progs false σ n hg hσ
+  exact ⟨a1.trans b1.symm, a2.trans b2.symm⟩
+
+/-- estimated emissions of (p, s) are that run's own estimate minus its own correction, floored at
+zero, column by column (zero when it wrote no estimate) -/
+theorem estimate_floor {κ : Type} (S : Stats κ) (W : Name → Nat → SimOut κ) (progs : List Name)
+    (keepAll : Bool) (σ : Sched κ) (n : Nat) (hg : GoodProgs progs) (hσ : σ.Valid) (hp : progs.Nodup)
+    (p : Name) (hpm : p ∈ progs) (s : Nat) (hs : s < n) (e r : κ)
+    (he : (W p s).est = some e) (hr : (W p s).rep = some r) :
+    List.lookup (key p s) (runAll S W progs keepAll σ n).emis
+      = some (S.emis (W p s).emis ++ (List.zipWith (fun a b => max (a - b) 0) (S.est e) (S.rep r)).map Val.q) := by
+  rw [(own_files_only S W W progs keepAll σ σ n hg hσ hσ hp p hpm s hs).2.1]
+  simp [estPart, he, hr, floorSub]
+
+/-- the join itself: whatever the orders in which the estimate files and the correction files were
+enumerated, every estimate is paired with the correction of its own key -/
+theorem estJoin_perm_invariant {est est' rep rep' : Table (List Rat)} (he : est'.Perm est) (hr : rep'.Perm rep)
+    (nde : (keys est).Nodup) (ndr : (keys rep).Nodup) (k : Key) :
+    List.lookup k (estJoin est' rep') = (List.lookup k est).map fun e =>
+      match List.lookup k rep with
+      | some r => List.zipWith (fun a b => max (a - b) 0) e r
+      | none => e.map fun _ => 0 := by
+  have hj := estJoin_perm he hr ndr
+  have ndj : (keys (estJoin est rep)).Nodup := by rw [keys_estJoin]; exact nde
+  rw [lookup_perm hj (nodup_keys_of_perm hj.symm ndj) k, lookup_estJoin]
+  rfl
+
+/-- Cost Summary: one row per (non-baseline program, simulation), carrying that pair's own total
+mitigation and total cost, the ratio `cost / (mitigation / 1000 · GWP)` (undefined when the
+denominator is 0) and the value `mitigation · KG_TO_MMBTU · gas price` -/
+theorem cost_ratios {κ : Type} (S : Stats κ) (W : Name → Nat → SimOut κ) (progs : List Name)
+    (keepAll : Bool) (σ : Sched κ) (n : Nat) (hg : GoodProgs progs) (hσ : σ.Valid) (hp : progs.Nodup)
+    (nb : List Name) (econ : Name → Rat × Rat) (K : Rat) :
+    (costSummary nb econ K (runAll S W progs keepAll σ n).emis (runAll S W progs keepAll σ n).ts).Perm
+      ((List.range n).flatMap fun s => (progs.filter fun p => nb.contains p).map fun p => costRowOf S W econ K p s) ∧
+    ∀ p s, (costRowOf S W econ K p s).2.value
+              = (costRowOf S W econ K p s).2.mitigation * K * (econ p).2 ∧
+           ((costRowOf S W econ K p s).2.mitigation / 1000 * (econ p).1 ≠ 0 →
+              (costRowOf S W econ K p s).2.ratio
+                = some ((costRowOf S W econ K p s).2.totalCost
+                         / ((costRowOf S W econ K p s).2.mitigation / 1000 * (econ p).1))) ∧
+           ((costRowOf S W econ K p s).2.mitigation / 1000 * (econ p).1 = 0 →
+              (costRowOf S W econ K p s).2.ratio = none) := by
+  obtain ⟨hts, hem, _⟩ := C14_partial S W progs keepAll σ n hg hσ
+  constructor
+  · have nd : (keys (canonTs S W progs (List.range n))).Nodup := by
+      rw [keys_canonTs]; exact nodup_canonKeys progs _ hp List.nodup_range
+    rw [← costSummary_canon S W progs (List.range n) hp List.nodup_range nb econ K]
+    exact costSummary_perm nb econ K hem hts nd
+  · intro p s
+    refine ⟨rfl, fun h => ?_, fun h => ?_⟩
+    · simp only [costRowOf, costRatio] at h ⊢; rw [if_neg h]
+    · simp only [costRowOf, costRatio] at h ⊢; rw [if_pos h]
+
+/-- the cost summary has every (non-baseline program, simulation) exactly once -/
+theorem cost_once_each {κ : Type} (S : Stats κ) (W : Name → Nat → SimOut κ) (progs : List Name)
+    (keepAll : Bool) (σ : Sched κ) (n : Nat) (hg : GoodProgs progs) (hσ : σ.Valid) (hp : progs.Nodup)
+    (nb : List Name) (econ : Name → Rat × Rat) (K : Rat) :
+    (keys (costSummary nb econ K (runAll S W progs keepAll σ n).emis (runAll S W progs keepAll σ n).ts)).Perm
+      (canonKeys (progs.filter fun p => nb.contains p) (List.range n)) ∧
+    (canonKeys (progs.filter fun p => nb.contains p) (List.range n)).Nodup := by
+  constructor
+  · have h := (cost_ratios S W progs keepAll σ n hg hσ hp nb econ K).1
+    have := List.Perm.map (·.1) h
+    refine this.trans (List.Perm.of_eq ?_)
+    simp [canonKeys, List.map_flatMap, List.map_map, Function.comp_def, costRowOf]
+  · exact nodup_canonKeys _ _ (List.Nodup.filter _ hp) List.nodup_range
+
+/-! ### batching -/
+
+/-- the batch sizes add up to the number of simulations -/
+theorem batch_sizes_sum (n : Nat) : (batchSimulations n).sum = n := by
+  unfold batchSimulations
+  split
+  · split
+    · simp [List.sum_append]; omega
+    · simp; omega
+  · simp
+
+/-- no batch holds more than five simulations -/
+theorem batch_sizes_le_five (n : Nat) : ∀ c ∈ batchSimulations n, c ≤ 5 := by
+  unfold batchSimulations
+  intro c hc
+  split at hc
+  · rw [List.mem_append] at hc
+    rcases hc with hc | hc
+    · rw [List.mem_replicate] at hc; omega
+    · split at hc
+      · simp at hc; omega
+      · simp at hc
+  · simp at hc; omega
+
+/-- the simulation numbers `batch · 5 + i` over all batches are exactly `0 .. n-1`, in order -/
+theorem batch_sims_eq_range (n : Nat) : allSims 0 (batchSimulations n) = List.range n :=
+  allSims_batchSimulations n
+
+/-! ### yearly share: an open-ended record -/
+
+/-- a yearly share of non-negative values is never negative -/
+def C14_yearly_statement : Prop :=
+  ∀ (rows : List (Int × Option Date × Option Date)) (year : Nat),
+    (∀ r ∈ rows, 0 ≤ r.1) → 0 ≤ yearlyShare rows year
+
+/-- false of the code as it stands (known finding C14-open-ended-yearly-share): 10 kg recorded
+2023-03-01 .. 2023-06-01 next to an open-ended 10 kg record that starts on 2024-02-01; the open end
+is assumed at 2023-12-31, before the record starts: the share of 2024 is 10 · 335 / (−31) -/
+theorem C14_yearly_counterexample : ¬ C14_yearly_statement := by
+  intro h
+  have := h [(10, some ⟨2023, 3, 1⟩, some ⟨2023, 6, 1⟩), (10, some ⟨2024, 2, 1⟩, none)] 2024
+    (by decide)
+  revert this
+  decide +kernel
+
+/-! ### non-vacuity -/
+
+example : GoodProgs ["P_A".toList, "unkept".toList, "P_Logs".toList, "A_1".toList] := by
+  unfold GoodProgs; decide
+
+/-- a concrete world: two programs, seven simulations (two batches), outputs cleared after the
+first batch, mixed enumeration orders; estimate 9/2 and 7 against corrections 1 and 10 -/
+example :
+    let S : Stats Nat :=
+      { ts := fun c => [Val.q c], emis := fun c => [Val.q (c + 1)], est := fun c => [(c : Rat) / 2, 7],
+        rep := fun c => [(c : Rat), 10], nEmis := 1, nYears := 2 }
+    let W : Name → Nat → SimOut Nat := fun p s =>
+      { ts := p.length * 100 + s, emis := s, est := if p.length = 3 then some 9 else none,
+        rep := if p.length = 3 then some 1 else none }
+    let r := runAll S W ["P_A".toList, "base".toList] false (mixedSched Nat) 7
+    r.ts.length = 14 ∧ r.emis.length = 14 ∧
+    List.lookup (key "P_A".toList 6) r.emis = some [Val.q 7, Val.q (7 / 2), Val.q 0] ∧
+    List.lookup (key "base".toList 5) r.emis = some [Val.q 6, Val.q 0, Val.q 0] ∧
+    List.lookup (key "P_A".toList 3) r.ts = some [Val.q 303] ∧
+    (r.dirs.map fun pd => pd.2.length) = [20, 10] := by
+  decide +kernel
+
 end LdarModel.Summary
